@@ -12,6 +12,7 @@ mod eng_dbrt;
 mod eng_depfile;
 mod eng_hist;
 mod eng_load;
+mod eng_loom;
 mod eng_proc;
 mod eng_render;
 mod eng_sched;
